@@ -141,6 +141,13 @@ def make_jobs(tier, seed):
     groups.append(("families_gated", {"mode": "random", "runs_per_config": 12 if quick else 100, "policies": pol + ["failures_first"], "signals": True,
                                       "max_changes": 2},
                    [fin(gated(c, k % 2 == 1), rec=True, inherit=True, fail=(k % 4 < 2)) for k, c in enumerate(fams * 2)]))
+    # free-running (nothing steered, real thread scheduling; the only mode in which a send can block): default capacities
+    # and the capacity-1 build of the harness
+    freec = rng.sample(all3, 250 if quick else 1500) + fams * (3 if quick else 20)
+    groups.append(("free", {"mode": "free", "runs_per_config": 2 if quick else 4, "signals": True},
+                   [fin(c, rec=True, inherit=True, fail=(k % 4 == 0), slow=(k % 5 == 0)) for k, c in enumerate(freec)]))
+    groups.append(("free_cap1", {"mode": "free", "runs_per_config": 2 if quick else 4, "signals": True},
+                   [fin(c, rec=True, inherit=True, fail=(k % 4 == 1), slow=(k % 5 == 1)) for k, c in enumerate(freec)]))
     big = [gen_configs.random_config(rng, rng.randint(4, 7)) for _ in range(150 if quick else 2000)]
     groups.append(("random_big", {"mode": "random", "runs_per_config": 2 if quick else 4, "policies": pol},
                    [fin(c, inherit=True, rec=True, fail=(k % 3 == 0)) for k, c in enumerate(big)]))
@@ -197,7 +204,7 @@ def shard(groups, nshards, seed, tag):
 
 def run_zv(jobtuple):
     label, name, jp, job = jobtuple
-    rc, out = run(["timeout", "-k", "2", "1800", ZV, "engine", jp], timeout=1900)
+    rc, out = run(["timeout", "-k", "2", "1800", ZV_CAP1 if label.endswith("_cap1") else ZV, "engine", jp], timeout=1900)
     summary = None
     sp = job["out"] + ".summary.json"
     if os.path.exists(sp):
@@ -326,6 +333,7 @@ def suite(tier, seed):
         harness_ok = True
         try:
             build_harness()
+            build_harness(cap=1)
         except ToolError as e:
             # an API-changing edit of /repo can break the in-crate harness; the unmodified main() is still judged through
             # the real-binary leg, and the evidence says that the harness part is missing
